@@ -98,3 +98,20 @@ Theorem C10_src_norefs : forall fuel mgr d p ws,
   AssemblyManager_generate_assembly fuel mgr d = Ok (p, ws) -> an_references (pr_annotations p) = None.
 Proof. exact generate_norefs. Qed.
 Print Assumptions C10_src_norefs.
+
+(* the entry point and the assembly proper end the same way whenever the inputs' citations
+   dereference: every theorem stated about vector_assemble (Props/C01_src ... C19_src) is a theorem
+   about vector.assemble(module, *modules, **kwargs) as regenerated *)
+Theorem C10_src_entry_point : forall vector m ms kw hd,
+  good_ent vector -> Forall good_ent (m :: ms) ->
+  map ent_id (m :: ms) = seq 0 (List.length (m :: ms)) -> ent_id vector = List.length (m :: ms) ->
+  deref_elems ((m :: ms) ++ [vector]) [] (heap_of (vector :: m :: ms)) = Ok hd ->
+  outcome_of (fst (run_assemble (S (S (List.length (m :: ms)))) vector (m :: ms) kw))
+  = outcome_of (vector_assemble (S (S (List.length (m :: ms)))) vector (m :: ms)).
+Proof. exact entry_point_outcome. Qed.
+Print Assumptions C10_src_entry_point.
+
+Theorem C10_src_nocits : forall r,
+  Forall (fun x => qcits (fquals x) = None) (pr_features r) -> deref_record r = Ok r.
+Proof. exact deref_record_nocits. Qed.
+Print Assumptions C10_src_nocits.
